@@ -162,9 +162,9 @@ class SMMap(Map[SMNoteList, SMHitList, SMHoldList, SMBpmList], SMMapMeta):
         prev_measure = -1
         for measure, g in notes_gb:
             # As we only use measures that exist, we skip those that don't
-            # We add those as padded 0000s.
-            for _ in range(measure - prev_measure - 1):
-                out.append("\n".join(["0000"] * METRONOME))
+            # We add those as padded rows of 0s, as wide as the chart type.
+            for _ in range(int(measure - prev_measure - 1)):
+                out.append("\n".join(["0" * keys] * METRONOME))
             prev_measure = measure
 
             # We find maximum LCM denominator that works for all snaps
